@@ -2,8 +2,8 @@
    Proofs.v / MGProofs.v and followed by Print Assumptions.  Arithmetic is exact
    (Qc, the ordered field of canonical rationals; every binary64 input is such a number). *)
 From Coq Require Import QArith Qcanon List Arith Bool ZArith.
-From Verif.C11 Require Import Spec Algebra Model Proofs MGProofs MGEnergy SmoothSets.
-From Verif.C04 Require Model Boundary.
+From Verif.C11 Require Import Spec Algebra Model Proofs MGProofs MGEnergy SmoothSets SmoothSets2 SmoothSets3.
+From Verif.C04 Require Model Boundary Proofs ProofsMesh.
 Import ListNotations.
 Open Scope Qc_scope.
 
@@ -290,6 +290,40 @@ Theorem smoothing_sets_spec : forall st bds lv S,
 Proof. exact smoothing_sets_spec_l. Qed.
 Print Assumptions smoothing_sets_spec.
 
+(* The same for ALL FOUR strategies.  func_supp and trunc are modelled in coq/C11/SmoothSets2.v
+   on top of C04's model of HMesh.function_children / function_grandparents (coq/C04/Children.v)
+   and are compared exactly with indices_to_smooth('func_supp'/'trunc') on every run. *)
+Theorem smoothing_sets_spec_all : forall st bds lv S,
+  (Boundary.smooth_new st bds lv = Some S \/ smooth_trunc st bds lv = Some S \/
+   smooth_func_supp st bds lv = Some S \/ Boundary.smooth_cell_supp st bds lv = Some S) ->
+  (forall p, In p S -> (p < length (vflat st lv))%nat) /\
+  (forall D, Boundary.dirichlet_dofs st bds lv = Some D -> forall p, In p S -> ~ In p D) /\
+  ((lv < Model.numlevels st)%nat ->
+   forall x, (In x (Model.lv_actfun (Model.lvl st lv)) \/ In x (Model.lv_deactfun (Model.lvl st lv))) ->
+             ~ In x (Boundary.index_dirichlet st bds lv lv) ->
+   exists p, In p S /\ nth_error (vflat st lv) p = Some (lv, x)).
+Proof. exact smoothing_sets_spec_all_l. Qed.
+Print Assumptions smoothing_sets_spec_all.
+
+(* what func_supp / trunc add on a coarser level i < lv inside the disparity window: exactly the
+   non-Dirichlet active functions of level i that are (grand)parents of active functions of level
+   lv, resp. whose not yet absorbed descendants meet the functions of level lv *)
+Theorem func_supp_coarse_part : forall st bds disp lv i x,
+  (i < lv)%nat -> Boundary.in_window disp lv i = true ->
+  (In x (func_supp_indices st bds disp lv i) <->
+   In x (Children.function_grandparents st (lv - i) lv (Model.lv_actfun (Model.lvl st lv))) /\
+   In x (Model.lv_actfun (Model.lvl st i)) /\ ~ In x (Boundary.index_dirichlet st bds lv i)).
+Proof. exact func_supp_coarse_spec. Qed.
+Print Assumptions func_supp_coarse_part.
+
+Theorem trunc_coarse_part : forall st bds disp lv i x,
+  (i < lv)%nat -> Boundary.in_window disp lv i = true ->
+  (In x (trunc_indices st bds disp lv i) <->
+   In x (Model.lv_actfun (Model.lvl st i)) /\ trunc_selected st i (lv - i - 1) x = true /\
+   ~ In x (Boundary.index_dirichlet st bds lv i)).
+Proof. exact trunc_coarse_spec. Qed.
+Print Assumptions trunc_coarse_part.
+
 (* dirichlet_dofs(lv) are positions holding functions of the Dirichlet index sets *)
 Theorem dirichlet_dofs_spec : forall st bds lv D, Boundary.dirichlet_dofs st bds lv = Some D ->
   forall p, In p D -> exists l x, nth_error (vflat st lv) p = Some (l, x) /\
@@ -297,16 +331,49 @@ Theorem dirichlet_dofs_spec : forall st bds lv D, Boundary.dirichlet_dofs st bds
 Proof. exact dirichlet_dofs_spec_l. Qed.
 Print Assumptions dirichlet_dofs_spec.
 
-(* The strategies trunc and func_supp are not in the C04 model (they need the sparsity pattern
-   of the prolongation matrices); for them, and for any strategy, the set-level statement:
-   for every disparity, sets act/deact of the level, candidate set F (whatever the strategy
-   computes) and Dirichlet set: no Dirichlet function is smoothed, every non-Dirichlet function
-   new on the level is, and nothing else than new functions and candidates is.
-   NOT PROVED: (1) the canonical-index statement for trunc / func_supp (missing: a model of
-   HMesh.function_children / function_grandparents); (2) that the position search succeeds
-   (Some) and that the position of a dof is unique, on reachable states (missing: sortedness /
-   disjointness of actfun and deactfun, C04's funcs_inv, carried through global_indices).
-   All four strategies are evaluated on the implementation on every run. *)
+(* The position search of raveled_to_virtual_canonical_indices (_position_index: list.index
+   from the last hit) SUCCEEDS -- for the four strategies and for dirichlet_dofs, on every virtual
+   level -- whenever the level sets of the state are sorted (C04.all_sorted) ... *)
+Theorem position_search_succeeds : forall st bds lv, Proofs.all_sorted st ->
+  (exists S, Boundary.smooth_new st bds lv = Some S) /\ (exists S, smooth_trunc st bds lv = Some S) /\
+  (exists S, smooth_func_supp st bds lv = Some S) /\ (exists S, Boundary.smooth_cell_supp st bds lv = Some S) /\
+  (exists D, Boundary.dirichlet_dofs st bds lv = Some D).
+Proof. exact position_search_succeeds_l. Qed.
+Print Assumptions position_search_succeeds.
+
+(* ... and every dof of the virtual level has exactly ONE position when, in addition, the active
+   and deactivated functions of level lv are disjoint ... *)
+Theorem dof_position_unique : forall st lv, Proofs.all_sorted st ->
+  (forall x, In x (Model.lv_actfun (Model.lvl st lv)) -> ~ In x (Model.lv_deactfun (Model.lvl st lv))) ->
+  forall p q d, nth_error (vflat st lv) p = Some d -> nth_error (vflat st lv) q = Some d -> p = q.
+Proof. exact position_unique_l. Qed.
+Print Assumptions dof_position_unique.
+
+(* ... both of which hold on every state reachable from a valid tensor-product mesh by valid
+   refinement calls (C04: all_sorted_run, activity_characterisation).  Together with
+   smoothing_sets_spec_all: on reachable states indices_to_smooth(strategy)[lv] is defined for all
+   four strategies, consists of valid indices, contains THE index of every new non-Dirichlet dof
+   and the index of no Dirichlet dof. *)
+Theorem reachable_positions : forall axes disp ops bds lv,
+  Forall ProofsMesh.axis_ok axes -> (forall d, disp = Some d -> 1 <= d)%nat ->
+  Proofs.ops_valid (Model.hs_init axes disp) ops ->
+  let st := Model.run (Model.hs_init axes disp) ops in
+  ((exists S, Boundary.smooth_new st bds lv = Some S) /\ (exists S, smooth_trunc st bds lv = Some S) /\
+   (exists S, smooth_func_supp st bds lv = Some S) /\ (exists S, Boundary.smooth_cell_supp st bds lv = Some S) /\
+   (exists D, Boundary.dirichlet_dofs st bds lv = Some D)) /\
+  NoDup (vflat st lv) /\
+  (forall p q d, nth_error (vflat st lv) p = Some d -> nth_error (vflat st lv) q = Some d -> p = q).
+Proof. exact reachable_positions_l. Qed.
+Print Assumptions reachable_positions.
+
+(* For any further strategy, the set-level statement: for every disparity, sets act/deact of the
+   level, candidate set F (whatever the strategy computes) and Dirichlet set: no Dirichlet function
+   is smoothed, every non-Dirichlet function new on the level is, and nothing else than new
+   functions and candidates is.  (Historic name; nothing about the smoothing sets is left
+   unproved: see smoothing_sets_spec_all, position_search_succeeds, dof_position_unique,
+   reachable_positions.)
+   STILL NOT PROVED for C11 as a whole: convergence of twogrid / the multigrid drivers for SPD
+   problems (an analytic fact; evaluated on the implementation on every run) and convergence rates. *)
 Theorem smoothing_sets_spec_partial : forall st disp act deact F dir lv,
   (forall i k, In k (smoothing_set st disp act deact F dir lv i) -> ~ In k dir) /\
   (forall k, In k act \/ In k deact -> ~ In k dir -> In k (smoothing_set st disp act deact F dir lv lv)) /\
